@@ -215,3 +215,146 @@ def argument_shape_check():
             print('REPLAY: VIOLATION-CONFIRMED a value of the wrong shape is accepted')
             return
     print('REPLAY: not reproduced')
+
+
+def _ev_targets():
+    from nutils import evaluable as ev
+    u = ev.Argument('u', (ev.constant(2),), float)
+    w = ev.Argument('w', (ev.constant(2),), float)
+    x = ev.Sin(u)
+    targets = {'T1': u, 'T2': ev.Power(u, w), 'T3': ev.Power(x, x), 'T4': ev.Power(ev.Sin(u), u), 'T5': ev.Tuple((ev.Power(u, w), ev.Power(w, u)))}
+    num = {'T1': lambda U, W: U, 'T2': lambda U, W: U**W, 'T3': lambda U, W: numpy.sin(U)**numpy.sin(U), 'T4': lambda U, W: numpy.sin(U)**U, 'T5': lambda U, W: (U**W, W**U)}
+    return ev, u, w, targets, num
+
+
+def _close(a, b):
+    if isinstance(a, tuple) or isinstance(b, tuple):
+        return len(a) == len(b) and all(_close(x, y) for x, y in zip(a, b))
+    return numpy.shape(a) == numpy.shape(b) and numpy.allclose(a, b)
+
+
+def _all_objects(obj, seen):
+    from nutils import _util
+    if id(obj) in seen:
+        return seen
+    seen[id(obj)] = obj
+    red = _util._reduce(obj)
+    if red:
+        for a in red[1]:
+            _all_objects(a, seen)
+    return seen
+
+
+def ev_replace_arguments(target):
+    """chains and swaps on small real DAGs: the result must evaluate to f with the replaced values (simultaneously), wrong dtypes/shapes must be refused"""
+    ev, u, w, targets, num = _ev_targets()
+    W0 = numpy.array([.3, .7])
+    U0 = numpy.array([1.5, .4])
+    five = ev.constant(numpy.array([5., 6.]))
+    for T in ([target] if target in targets else []) + [t for t in targets if t != target]:
+        f = targets[T]
+        cases = [({'u': ev.Cos(w), 'w': five}, lambda: num[T](numpy.cos(W0), numpy.array([5., 6.])), 'chain u:cos(w), w:const (simultaneous)'),
+                 ({'u': w, 'w': u}, lambda: num[T](W0, U0), 'swap u:w, w:u'),
+                 ({'zz': five}, lambda: num[T](U0, W0), 'foreign name only')]
+        for arguments, want, what in cases:
+            try:
+                r = ev.replace_arguments(f, arguments)
+                got = ev.eval_once(r, arguments=dict(u=U0, w=W0))
+            except Exception as e:
+                print('%s: replace_arguments(%s) raised %s: %s' % (T, what, type(e).__name__, e))
+                print('REPLAY: VIOLATION-CONFIRMED a consistent replacement raises')
+                return
+            if not _close(got, want()):
+                print('%s: replace_arguments(%s) evaluates to %r, the definition gives %r' % (T, what, got, want()))
+                print('REPLAY: VIOLATION-CONFIRMED the replaced expression does not evaluate to f at the replaced values')
+                return
+            reps = [v for v in arguments.values() if not isinstance(v, ev.Argument)]
+            objs = _all_objects(r, {})
+            present = set(a.name for a in f.arguments)
+            if not all(id(v) in objs for k, v in arguments.items() if k in present and not isinstance(v, ev.Argument)):
+                print('%s: replace_arguments(%s): the replacement object is not part of the result (it was rebuilt)' % (T, what))
+                print('REPLAY: VIOLATION-CONFIRMED replacements are entered again')
+                return
+        if T == 'T3':
+            r = ev.replace_arguments(f, {'u': ev.Cos(w)})
+            if r.dependencies[0] is not r.dependencies[1]:
+                print('REPLAY: VIOLATION-CONFIRMED the shared subexpression of T3 is rebuilt twice')
+                return
+        for bad, what in ((ev.constant(numpy.array([1, 2])), 'an int array for a float argument'), (ev.constant(numpy.array([1., 2., 3.])), 'shape (3,) for an argument of shape (2,)')):
+            try:
+                r = ev.replace_arguments(f, {'u': bad})
+            except (AssertionError, ValueError):
+                continue
+            except Exception as e:
+                print('%s: replacing u by %s raised %s' % (T, what, type(e).__name__))
+                print('REPLAY: VIOLATION-CONFIRMED unexpected exception type')
+                return
+            print('%s: replacing u by %s is accepted: %r' % (T, what, r))
+            print('REPLAY: VIOLATION-CONFIRMED a replacement of the wrong dtype/shape is accepted')
+            return
+    print('REPLAY: not reproduced')
+
+
+def shallow_replace(target):
+    """util.shallow_replace with a counting callable on small real DAGs: once per object, sharing preserved, children in order"""
+    from nutils import _util
+    ev, u, w, targets, num = _ev_targets()
+    U0, W0 = numpy.array([1.5, .4]), numpy.array([.3, .7])
+    for T, f in targets.items():
+        for hit in (lambda o: None, lambda o: ev.Cos(o) if o is u else None, lambda o: ev.constant(numpy.array([2., 3.])) if isinstance(o, ev.Sin) else None):
+            calls = {}
+            made = {}
+
+            def func(obj, extra):
+                assert extra == 'extra'
+                calls[id(obj)] = calls.get(id(obj), 0) + 1
+                r = hit(obj)
+                if r is not None:
+                    made[id(obj)] = r
+                return r
+            try:
+                r = _util.shallow_replace(func, f, 'extra')
+            except Exception as e:
+                print('%s: shallow_replace raised %s: %s' % (T, type(e).__name__, e))
+                print('REPLAY: VIOLATION-CONFIRMED shallow_replace raises')
+                return
+            objs = _all_objects(f, {})
+            # irreducible objects the callable declines (str, type, ...) are not memoised: they are visited per occurrence
+            counted = [n for i, n in calls.items() if i in objs and (_util._reduce(objs[i]) or i in made)]
+            if counted and max(counted) > 1:
+                print('%s: the callable was applied %d times to one node' % (T, max(counted)))
+                print('REPLAY: VIOLATION-CONFIRMED no memoisation: an object is processed more than once')
+                return
+            if T == 'T3' and r.dependencies[0] is not r.dependencies[1]:
+                print('REPLAY: VIOLATION-CONFIRMED the shared subexpression of T3 is rebuilt twice')
+                return
+            Ur = numpy.cos(U0) if id(u) in made else U0
+            sin = (lambda x: numpy.array([2., 3.])) if any(isinstance(o, ev.Sin) for o in _all_objects(f, {}).values()) and hit(ev.Sin(u)) is not None else numpy.sin
+            want = {'T1': lambda: Ur, 'T2': lambda: Ur**W0, 'T3': lambda: sin(Ur)**sin(Ur), 'T4': lambda: sin(Ur)**Ur, 'T5': lambda: (Ur**W0, W0**Ur)}[T]()
+            got = ev.eval_once(r, arguments=dict(u=U0, w=W0))
+            if not _close(got, want):
+                print('%s: shallow_replace result evaluates to %r, expected %r' % (T, got, want))
+                print('REPLAY: VIOLATION-CONFIRMED the rebuilt expression differs from the definition (children out of order or replacement missed)')
+                return
+    print('REPLAY: not reproduced')
+
+
+def zero_all_arguments(target):
+    ev, u, w, targets, num = _ev_targets()
+    n = ev.Argument('n', (ev.constant(2),), int)
+    targets = dict(targets, Tn=ev.Tuple((u, n)))
+    num = dict(num, Tn=lambda U, W: (U, numpy.zeros(2, int)))
+    Z = numpy.zeros(2)
+    for T, f in targets.items():
+        r = ev.zero_all_arguments(f)
+        if r.arguments:
+            print('%s: zero_all_arguments leaves the arguments %r' % (T, sorted(a.name for a in r.arguments)))
+            print('REPLAY: VIOLATION-CONFIRMED not every argument is zeroed')
+            return
+        with numpy.errstate(all='ignore'):
+            got, want = ev.eval_once(r), num[T](Z, Z)
+        if not _close(numpy.nan_to_num(got) if not isinstance(got, tuple) else tuple(map(numpy.nan_to_num, got)), numpy.nan_to_num(want) if not isinstance(want, tuple) else tuple(map(numpy.nan_to_num, want))):
+            print('%s: zero_all_arguments evaluates to %r, f(0) is %r' % (T, got, want))
+            print('REPLAY: VIOLATION-CONFIRMED zero_all_arguments(f) is not f at zero')
+            return
+    print('REPLAY: not reproduced')
